@@ -17,7 +17,15 @@
 (*     allows a configured retry after a backoff ("unavail");              *)
 (*   - the attempt is the last one and ends with a final outcome: success, *)
 (*     server error, client cancel before / after the response headers,    *)
-(*     deadline.                                                           *)
+(*     deadline;                                                           *)
+(*   - the pick result carries metadata that cannot be sent (invalid key): *)
+(*     the attempt fails before a stream is created and is finished        *)
+(*     ("badmd"; valid pick metadata is the normal case);                  *)
+(*   - the RPC stays blocked in pick (its first pick hit a not-READY       *)
+(*     subchannel, Done at once, and no new picker arrives) until its      *)
+(*     context is cancelled or its deadline passes ("blocked").            *)
+(* The context may end with a custom cause (context.WithCancelCause /      *)
+(* WithTimeoutCause): `cause`.  Whatever the cause, the RPC returns.       *)
 (* The same module (a) states the property as invariants checked by TLC    *)
 (* and (b) enumerates the scenarios (its behaviours) that the e2e driver   *)
 (* harness/virt/c23 replays against a real grpc.ClientConn; the recorded   *)
@@ -25,25 +33,33 @@
 (***************************************************************************)
 EXTENDS Integers, Sequences, FiniteSets, TLC
 CONSTANTS Modes,       \* {"unary", "stream"}
-          Pre,         \* client-side faults of the first attempt: subset of {"none", "notready", "connclosed"}
+          Pre,         \* client-side faults of the first attempt: subset of {"none", "notready", "connclosed", "badmd", "blocked"}
+          Causes,      \* subset of BOOLEAN: the RPC's context ends with a custom cause
           SrvFaults,   \* server-side faults: subset of {"refused", "unavail"}
           Finals,      \* final outcomes
           MaxFaults,   \* number of server-side faults per RPC
           Mutant
 
-VARIABLES mode, phase, picks, dones, script, finished
-vars == <<mode, phase, picks, dones, script, finished>>
+VARIABLES mode, cause, phase, picks, dones, script, finished
+vars == <<mode, cause, phase, picks, dones, script, finished>>
 
 Ids == 1..(MaxFaults + 4)
-Init == /\ mode \in Modes /\ phase = "new" /\ picks = 0 /\ dones = [i \in Ids |-> 0]
+Init == /\ mode \in Modes /\ cause \in Causes /\ phase = "new" /\ picks = 0 /\ dones = [i \in Ids |-> 0]
         /\ script = <<>> /\ finished = FALSE
 
 DoneCall(i) == dones' = [dones EXCEPT ![i] = @ + 1]
 NFaults == Cardinality({k \in 1..Len(script) : script[k] \in SrvFaults})
 
 \* the first attempt, with its client-side fault
-Begin(p) == /\ phase = "new" /\ p \in Pre /\ script' = <<p>> /\ UNCHANGED <<mode, finished>>
+Begin(p) == /\ phase = "new" /\ p \in Pre /\ script' = <<p>> /\ UNCHANGED <<mode, cause>>
+            /\ finished' = (p = "badmd")
             /\ CASE p = "none" -> picks' = 1 /\ phase' = "attempt" /\ UNCHANGED dones
+                 \* the pick result's metadata is invalid: no stream, the attempt is finished, the RPC fails
+                 \* Mutant 3: the result is dropped before it is bound to the attempt
+                 [] p = "badmd" -> /\ picks' = 1 /\ phase' = "finished"
+                                   /\ IF Mutant = 3 THEN UNCHANGED dones ELSE DoneCall(1)
+                 \* pick 1 hits a not-READY subchannel (Done at once); no new picker: the RPC is blocked in pick
+                 [] p = "blocked" -> picks' = 1 /\ phase' = "blocked" /\ DoneCall(1)
                  \* pick 1 hits a subchannel that is not READY: Done at once; pick 2 after the new picker
                  [] p = "notready" -> picks' = 2 /\ phase' = "attempt" /\ DoneCall(1)
                  \* pick 1 is READY but NewStream fails (transport closed): attempt finished, transparent retry;
@@ -55,22 +71,26 @@ Begin(p) == /\ phase = "new" /\ p \in Pre /\ script' = <<p>> /\ UNCHANGED <<mode
 Fault(f) == /\ phase = "attempt" /\ f \in SrvFaults /\ NFaults < MaxFaults
             /\ script' = Append(script, f) /\ picks' = picks + 1
             /\ IF Mutant = 1 /\ f = "refused" THEN UNCHANGED dones ELSE DoneCall(picks)
-            /\ UNCHANGED <<mode, phase, finished>>
+            /\ UNCHANGED <<mode, cause, phase, finished>>
 \* the final outcome: the RPC finishes; clientStream.finish finishes the attempt
 \* Mutant 2: a cancelled RPC finishes its attempt twice
 Final(o) == /\ phase = "attempt" /\ o \in Finals
             /\ script' = Append(script, o) /\ phase' = "finished" /\ finished' = TRUE
             /\ dones' = [dones EXCEPT ![picks] = @ + (IF Mutant = 2 /\ o = "cancel_after" THEN 2 ELSE 1)]
-            /\ UNCHANGED <<mode, picks>>
+            /\ UNCHANGED <<mode, cause, picks>>
+\* the context of an RPC blocked in pick ends: the pick is woken and the RPC returns; no result is outstanding
+EndBlocked(o) == /\ phase = "blocked" /\ o \in Finals \cap {"cancel_before", "deadline"}
+                 /\ script' = Append(script, o) /\ phase' = "finished" /\ finished' = TRUE
+                 /\ UNCHANGED <<mode, cause, picks, dones>>
 
 Next == \/ \E p \in Pre : Begin(p)
         \/ \E f \in SrvFaults : Fault(f)
-        \/ \E o \in Finals : Final(o)
+        \/ \E o \in Finals : Final(o) \/ EndBlocked(o)
 Spec == Init /\ [][Next]_vars
 
 \* ------------------------------------------------------------------ the property
 I_DoneAtMostOnce == \A i \in Ids : dones[i] <= 1
 I_DoneOnFinish == finished => \A i \in 1..picks : dones[i] = 1
 \* while the RPC runs only the current attempt's result is outstanding
-I_OneOutstanding == ~finished => \A i \in 1..picks : dones[i] = (IF i = picks THEN 0 ELSE 1)
+I_OneOutstanding == ~finished => \A i \in 1..picks : dones[i] = (IF i = picks /\ phase = "attempt" THEN 0 ELSE 1)
 ====
